@@ -140,6 +140,35 @@ pub fn run(args: &Args) {
         rep.count("file_backend_executions", exf);
         families.push(json!({"family": format!("{name} [file backend]"), "universes": small.len(), "executions": exf}));
     }
+    {
+        // Backend faults: exactly one head-set commit (of a transaction or of the action) is refused
+        // with an I/O error; the failed operation must change nothing, the set of committed commands
+        // must not shrink, and the other actors behave as the stamp rule says.
+        let o = uni(2, if args.tier == Tier::Thorough { 5 } else { 4 });
+        let mut dags = Vec::new();
+        let mut seen = std::collections::BTreeSet::new();
+        for_each_universe(&o, |d| {
+            let shape: Vec<Vec<usize>> = d.nodes.iter().map(|n| n.parents.clone()).collect();
+            if seen.insert(shape) {
+                dags.push(d.clone())
+            }
+        });
+        let filter: crate::props::simrun::Filter = |c, _| matches!(c, "commit-outcome" | "action-outcome" | "history-shrank" | "failed-op-changed-state" | "cmdset" | "heads");
+        let ex = crate::props::simrun::run_all_faulty(&mut rep, "fault", &dags, oracles, filter, |d, f| {
+            cases(d, 2, true, false, &mut |evs: &[Ev]| {
+                for (i, e) in evs.iter().enumerate() {
+                    if i >= 2 && matches!(e, Ev::Commit { .. } | Ev::Action(_)) {
+                        let mut v = evs[..i].to_vec();
+                        v.push(Ev::FailNextCommit);
+                        v.extend_from_slice(&evs[i..]);
+                        f(&v);
+                    }
+                }
+            })
+        });
+        families.push(json!({"family": "one refused backend commit at every commit/action position, 2 transactions + action, all interleavings", "universes": dags.len(), "executions": ex}));
+        rep.require_nonzero("faults_fired");
+    }
     rep.require_nonzero("concurrent_transaction_errors");
     rep.require_nonzero("file_backend_executions");
     rep.require_nonzero("ok_actions");
